@@ -63,6 +63,17 @@ def evaluate(seed, checks, skip_tests, tier):
             res["demo_unpatched_exit"] = a.returncode
             res["demo_patched_exit"] = b.returncode
             res["demo_patched_tail"] = (b.stdout + b.stderr)[-400:]
+        if skip_tests:
+            # keep the suite result of an earlier evaluation of the same patch
+            prev = os.path.join(sdir, "result.json")
+            if os.path.exists(prev):
+                try:
+                    pr = json.load(open(prev))
+                    for k in ("tests_exit", "tests_tail"):
+                        if k in pr:
+                            res[k] = pr[k]
+                except Exception:
+                    pass
         if not skip_tests:
             t = sh([PY, "-m", "pytest", "-q", "-p", "no:cacheprovider", "-n", "8", "--timeout=900"], cwd=patched,
                    env=dict(os.environ, PYTHONPATH=patched, PYTHONDONTWRITEBYTECODE="1"), timeout=3600)
